@@ -317,7 +317,7 @@ def w_shape_copies(idx):
                     typed = lambda d: {k: (type(v).__name__, v) for k, v in d.items()} if isinstance(d, dict) else d  # noqa: E731  (True == 1: compare types too)
                     bad = [f for f in ("attributes", "extras", "content", "tail", "prefix", "name") if typed(getattr(so, f)) != typed(getattr(cp, f))]
                     if bad:
-                        out.append(("copy:not-equal:fields-taken-from-outside-the-subtree:" + ",".join(bad),
+                        out.append(("copy:not-equal:copy-differs-from-its-source-node:" + ",".join(bad),
                                     f"source node {sk}: " + "; ".join(f"{f} {getattr(so, f)!r} -> {getattr(cp, f)!r}" for f in bad), replay))
                         break
             n += 1
